@@ -17,7 +17,7 @@ THEOREMS = ["C09_tree_consistent", "C09_tree_watch_inverse", "C09_tree_count", "
 
 def gen_tree_cases(ctx):
     rng = ctx.rng
-    n_cases = 600 if ctx.thorough else 90
+    n_cases = 600 if ctx.thorough else 60
     cases = []
     # corpus: hand-written shapes first (each documents why it is there)
     corpus = [
@@ -194,7 +194,9 @@ def write_inputs(ctx, cases, scs):
 
 def both_ties(ctx, stats):
     cases = gen_tree_cases(ctx)
-    scs = gen_scenarios(ctx, False)
+    # expectations (what the harness waits for) are generated for the repaired disown test first;
+    # stop_tie regenerates them if the tree under check behaves like the unrepaired code
+    scs = gen_scenarios(ctx, True)
     write_inputs(ctx, cases, scs)
     ctx.log("generated %d tree cases, %d scenarios" % (len(cases), len(scs)))
     rc, out = go_run(ctx)
@@ -515,7 +517,7 @@ def finish_scenario(sim, actions, expect):
 def gen_scenarios(ctx, ws=False):
     import random
     rng = random.Random(ctx.seed * 7919 + 13)
-    n_sc = 400 if ctx.thorough else 36
+    n_sc = 400 if ctx.thorough else 30
     out = []
     for c in CORPUS_SCENARIOS:
         sim = StopSim(c["n"], c["gated"], ws)
@@ -604,6 +606,18 @@ def scenario_oracle(sc, out):
             c = par[c]
             yield c
     sysstop = t.get(("sysstop", -1), 10 ** 18)
+
+    def leaked(d):
+        """d, or an actor between d and the root, was being spawned (SpawnChild between its call and its
+        return) at the moment PostStop of one of its ancestors began: the child of the spawn race"""
+        chain_up = [d] + [x for x in ancestors(d)]
+        for i_, y in enumerate(chain_up[:-1]):
+            sc_y, sr_y = t.get(("spawncall", y)), t.get(("spawnret", y), 10 ** 18)
+            for x in chain_up[i_ + 1:]:
+                pb = t.get(("postb", x))
+                if sc_y is not None and pb is not None and sc_y < pb < sr_y:
+                    return True
+        return False
     for d in sorted(spawn_ok):
         for a in ancestors(d):
             tb = t.get(("postb", a))
@@ -623,7 +637,7 @@ def scenario_oracle(sc, out):
             between = between[:between.index(a)]
             d_stop_in_flight = any(e["kind"] == "call" and e["a"] in between and e["seq"] < tb and
                                    (t.get(("poste", e["a"])) is None or t.get(("poste", e["a"])) > tb) for e in ev)
-            if in_flight_spawn:
+            if in_flight_spawn or leaked(d):
                 sig = "running-child-under-stopped-parent:spawnchild-in-flight"
             elif d_stop_in_flight:
                 sig = "children-first:descendant-stop-already-in-flight"
@@ -632,7 +646,44 @@ def scenario_oracle(sc, out):
             found.append((sig, "PostStop of a%d began (seq %d) before PostStop of its descendant a%d completed (%s)" %
                           (a, tb, d, "seq %d" % te_d if te_d is not None else "never"), {"ancestor": a, "descendant": d}))
             break
-    # stopped on return: when Shutdown(a) returned nil, no descendant may report IsRunning afterwards
+    # stopped on return: when Shutdown(a) returned nil, every descendant spawned before the stop was
+    # requested has completed its PostStop
+    reported = {(f[2]["ancestor"], f[2]["descendant"]) for f in found if "ancestor" in f[2]}
+    for e in ev:
+        if e["kind"] != "ret" or e.get("err"):
+            continue
+        a, r = e["a"], e["seq"]
+        calls = [x["seq"] for x in ev if x["kind"] == "call" and x["a"] == a and x["seq"] < r]
+        if not calls:
+            continue
+        # the call this return belongs to started at or after the first call; use the latest call before r
+        call_seq = max(calls)
+        if t.get(("poste", a)) is None or t.get(("poste", a)) > r:
+            # Shutdown(a) returned although a's own PostStop has not completed: only legitimate when a was not running
+            if t.get(("pre", a)) is not None and t.get(("postb", a)) is not None and t.get(("postb", a)) < r:
+                found.append(("stop-returned-before-poststop-completed", "Shutdown(a%d) returned (seq %d) while its PostStop was still running" % (a, r), {"actor": a}))
+            continue
+        for d in sorted(spawn_ok):
+            if a not in list(ancestors(d)) or (a, d) in reported:
+                continue
+            if t.get(("spawnret", d), 10 ** 18) > call_seq:
+                continue
+            te_d = t.get(("poste", d))
+            if te_d is not None and te_d < r:
+                continue
+            between = [d] + [x for x in ancestors(d)]
+            between = between[:between.index(a)]
+            in_flight = any(x["kind"] == "call" and x["a"] in between and x["seq"] < r and
+                            (t.get(("poste", x["a"])) is None or t.get(("poste", x["a"])) > r) for x in ev)
+            if leaked(d):
+                sig = "running-child-under-stopped-parent:spawnchild-in-flight"
+            elif in_flight:
+                sig = "children-first:descendant-stop-already-in-flight"
+            else:
+                sig = "stopped-on-return"
+            found.append((sig, "Shutdown(a%d) returned nil (seq %d) while its descendant a%d had not completed PostStop (%s)" %
+                          (a, r, d, "seq %d" % te_d if te_d is not None else "never"), {"ancestor": a, "descendant": d}))
+            reported.add((a, d))
     return found
 
 
@@ -643,9 +694,9 @@ def stop_tie(ctx, stats, scs, outs):
     st3 = outs[0]["steps"][3]["o"]
     variant = not (st3[2 * 1][2] == 1 and st3[2 * 2][0] == 1)
     ctx.c09_ws = variant
-    if variant:
-        # expectations (what the harness waits for) regenerated for the repaired disown test
-        scs = gen_scenarios(ctx, True)
+    if not variant:
+        # the tree behaves like the unrepaired freeChildren: regenerate the expectations for it
+        scs = gen_scenarios(ctx, False)
         write_inputs(ctx, [], scs)
         rc, out = go_run(ctx)
         outs = read_jsonl(os.path.join(ctx.work, "c09_stop_out.jsonl"))
